@@ -30,6 +30,13 @@ def lib(path):
 
 # --------------------------------------------------------------------------- bundles ----
 
+# entry points that may also be given a trajectory of a few hundred particles ("mid": above the
+# block / chunk sizes a refactor might introduce, far below the cost of the rare huge system)
+MID_EXTRA = {"conditional_gr", "gr.init", "gr.getresults", "gr.unary", "gr.binary", "S2.init", "S2.particle_s2", "S2.spatial_corr",
+             "S2.time_corr", "boo_2d.init", "boo_2d.lthorder", "boo_2d.spatial_corr", "boo_2d.time_corr", "boo_2d.time_average",
+             "conditional_sq", "sq.init", "sq.getresults", "sq.unary", "sq.binary", "Dynamics.relaxation", "LogDynamics.relaxation",
+             "gyration_tensor", "NematicOrder.init", "NematicOrder.tensor", "NematicOrder.spatial_corr", "s2_integral"}
+
 # entry points cheap enough for the rare >= 1000-particle trajectory (size thresholds, large files)
 HUGE_OK = {"Nnearests", "cutoffneighbors", "cutoffneighbors_particletype", "read_neighbors", "spatial_average", "cal_neighbors",
            "convert_configuration", "get_input", "Dynamics.init", "LogDynamics.init", "cage_relative", "time_correlation",
@@ -49,6 +56,27 @@ def gen_mk_snaps(w, rng):
         rec = dict(rng.choice(big if big and sw.get("huge") else parents).tag["recipe"])
         rec["branch"] = rng.randrange(1 << 30)
         w.ctx.probe("branched_trajectory")
+        return {"op": "mk_snaps", "recipe": rec}
+    if parents and rng.random() < 0.1:
+        # the same system handed over in the other precision (the LAMMPS readers deliver float64,
+        # the HOOMD converters float32 - cell included): equal values, another dtype
+        small = [e for e in parents if not e.tag.get("huge") and not e.tag.get("mid") and "branch" not in e.tag["recipe"]]
+        if small:
+            rec = dict(rng.choice(small).tag["recipe"])
+            if rec.get("mem") == "f32":
+                rec.pop("mem")
+            else:
+                rec["mem"] = "f32"
+            w.ctx.probe("same_system_other_precision")
+            return {"op": "mk_snaps", "recipe": rec}
+    nmid = sum(1 for e in w.pool.values() if e.kind == "snaps" and e.tag.get("base") and e.tag.get("mid"))
+    if sw.get("mid") and nmid < 2:
+        ndim = rng.choice([2, 3])
+        rec = {"ndim": ndim, "cell": "ortho", "centred": rng.random() < 0.3, "intbounds": False,
+               "N": rng.randint(140, 420), "T": 2, "K": rng.randint(1, 2), "steps": "lin",
+               "mask": [1] * ndim, "mid": True, "subseed": rng.randrange(1 << 40)}
+        if rng.random() < 0.3:
+            rec["mem"] = "f32"
         return {"op": "mk_snaps", "recipe": rec}
     if sw.get("huge") and not any(e.tag.get("huge") for e in w.pool.values() if e.kind == "snaps"):
         rec = {"ndim": rng.choice([2, 3]), "cell": "ortho", "centred": rng.random() < 0.3, "intbounds": False,
@@ -111,7 +139,7 @@ def build_bundle(rec):
     rng_steps = np.random.default_rng(rec["branch"]) if "branch" in rec else rng
     for _t in range(1, T):
         xu.append(xu[-1] + rng_steps.normal(0, 0.12, size=(N, ndim)))
-    if rec.get("huge"):
+    if rec.get("huge") or rec.get("mid"):
         L = L * (N / 12.0) ** (1.0 / ndim)        # keep the density of the small systems
         h = np.diag(L)
         bounds = np.column_stack((origin, origin + L))
@@ -144,20 +172,23 @@ def build_bundle(rec):
         return p
 
     # a hand-made snapshot with integer box lengths: np.diag([6, 5, 7]) is an integer array
-    int_cell = bool(rec["intbounds"] and not tri and not rec.get("huge") and rec["subseed"] % 3 == 0)
+    int_cell = bool(rec["intbounds"] and not tri and not rec.get("huge") and rec["subseed"] % 3 == 0 and rec.get("mem") != "f32")
+    # single-precision trajectories come with a single-precision cell (what read_gsd builds from a HOOMD box)
+    f32_cell = bool(rec.get("mem") == "f32" and not tri and rec["subseed"] % 2 == 0)
 
     def mk(frames):
         snaps = []
         for t, p in enumerate(frames):
             snaps.append(SingleSnapshot(
                 timestep=steps[t], nparticle=N, particle_type=types.copy() if mem != "f32" else types.astype(np.uint32) + 0, positions=store(p),
-                boxlength=L.copy(), boxbounds=bounds.copy(), realbounds=None if real is None else real.copy(),
-                hmatrix=h.astype(np.int64) if int_cell else h.copy()))
+                boxlength=L.astype(np.float32) if f32_cell else L.copy(), boxbounds=bounds.astype(np.float32) if f32_cell else bounds.copy(),
+                realbounds=None if real is None else real.copy(),
+                hmatrix=h.astype(np.float32) if f32_cell else h.astype(np.int64) if int_cell else h.copy()))
         return Snapshots(nsnapshots=T, snapshots=snaps)
 
     meta = {"ndim": ndim, "N": N, "T": T, "K": K, "cell": rec["cell"], "centred": bool(rec["centred"]),
             "mask": list(rec["mask"]), "lin": rec["steps"] == "lin" or T <= 2, "Lmin": float(L.min()),
-            "allper": all(rec["mask"]), "steps": steps, "huge": bool(rec.get("huge")), "recipe": dict(rec)}
+            "allper": all(rec["mask"]), "steps": steps, "huge": bool(rec.get("huge")), "mid": bool(rec.get("mid")), "recipe": dict(rec)}
     out = [("", "snaps", mk([wrap(p) for p in xu]), dict(meta, base=True, coord="x")),
            (".xu", "snaps", mk(xu), dict(meta, base=False, coord="xu"))]
     if ndim == 2:
@@ -219,9 +250,12 @@ def build_bundle(rec):
 # ----------------------------------------------------------------------- pool queries ----
 
 def bases(w, pred=None):
-    big = getattr(w, "cur_adapter", None) in HUGE_OK
+    cur = getattr(w, "cur_adapter", None)
+    big = cur in HUGE_OK
+    mid = big or cur in MID_EXTRA
     return sorted(n for n, e in w.pool.items()
-                  if e.kind == "snaps" and e.tag.get("base") and (big or not e.tag.get("huge")) and (pred is None or pred(e.tag)))
+                  if e.kind == "snaps" and e.tag.get("base") and (big or not e.tag.get("huge")) and (mid or not e.tag.get("mid"))
+                  and (pred is None or pred(e.tag)))
 
 
 def pick_base(w, rng, pred=None):
